@@ -710,6 +710,16 @@ func (s *DB) getHistoricRootsAndNodes(
 			candidateRoots[parent] = children
 		}
 	}
+	// A version that is still listed as current was not retired (the
+	// commit that merged it could not move it): every opener still reads
+	// it, and only copies under root/merged/ are ever deleted.
+	unretired, err := s.listRoots(ctx)
+	if err != nil {
+		return nil, nil, fmt.Errorf("list versions in use: %w", err)
+	}
+	for _, headName := range unretired {
+		delete(candidateRoots, headName)
+	}
 	candidateBlocks := make(map[string]int) // track root that can be deleted too
 	for parentName, children := range candidateRoots {
 		parentRoot, ok := rootCacheByName[parentName]
